@@ -16,7 +16,7 @@ TRUSTED = ["Coq 8.16.1 kernel; vm_compute for case evaluation",
            "hand model of Flow.intercept/resume/kill/wait_for_resume and asyncio.Event wake-up semantics, tied by correspondence",
            "layer-level clause rests on C04 (LayerCore) plus the relay skeleton; the real TCP/UDP layers are exercised by the oracle only",
            "addon manager abstracted to: addon decides intercept at the message hook"]
-ASSUMPTIONS = ["kill() on a non-killable flow raises and changes nothing", "WebSocket/DNS/HTTP layer kill paths are not driven by this check's oracle"]
+ASSUMPTIONS = ["kill() on a non-killable flow raises and changes nothing", "WebSocket and DNS layer kill paths are not driven by this check's oracle; HTTP/1 (HttpStream.check_killed) is"]
 
 OPS = ["int", "res", "kill", "wait", "loop"]
 COQ_OP = {"int": "Intercept", "res": "Resume", "kill": "Kill", "wait": "HookWait", "loop": "LoopStep"}
@@ -32,6 +32,12 @@ def gen(rng, n, tier):
             if rng.chance(0.5):  # make sure the hook waits in many cases
                 ops = ["int", "wait"] + ops
             out.append({"k": "flow", "ops": ops})
+        elif rng.chance(0.5):
+            out.append({"k": "http", "hook": rng.choice(["requestheaders", "request", "responseheaders", "response"]),
+                        "action": rng.choice(["kill", "resume", "edit-resume"]),
+                        "stream_req": rng.chance(0.4), "stream_resp": rng.chance(0.5),
+                        "req_chunked": rng.chance(0.5), "resp_chunked": rng.chance(0.6),
+                        "nbody": rng.randint(0, 3)})
         else:
             user = [rng.weighted([(3, "res"), (2, "kill"), (1, "int"), (2, "loop"), (2, "edit")]) for _ in range(rng.randint(1, 5))]
             out.append({"k": rng.choice(["tcp", "udp"]), "intercept": rng.chance(0.8), "user": user,
@@ -200,8 +206,74 @@ def run_layer(case):
     return asyncio.run(main())
 
 
+def run_http(case):
+    """A real HttpLayer (regular mode, HTTP/1) relays one exchange; the addon intercepts at one hook, the user kills
+    or resumes; we record what reaches each peer before and after that decision."""
+    from lib.sansio import Driver, DEFER
+    from mitmproxy.proxy.layers import http as http_layers
+    from mitmproxy.proxy.layers.http import HTTPMode
+    st = {"hook": None, "flow": None}
+
+    def policy(hook, drv):
+        f = hook.args()[0]
+        if hook.name == "requestheaders" and case["stream_req"]:
+            f.request.stream = True
+        if hook.name == "responseheaders" and case["stream_resp"]:
+            f.response.stream = True
+        if hook.name == case["hook"] and st["hook"] is None:
+            f.intercept()
+            st["hook"], st["flow"] = hook, f
+            return DEFER
+    d = Driver(lambda ctx: http_layers.HttpLayer(ctx, HTTPMode.regular), policy=policy)
+    chunks = [b"chunk%d" % i for i in range(case["nbody"])]
+
+    def body(chunked):
+        if chunked:
+            return b"Transfer-Encoding: chunked\r\n\r\n" + b"".join(b"%x\r\n%s\r\n" % (len(c), c) for c in chunks) + b"0\r\n\r\n"
+        return b"Content-Length: %d\r\n\r\n" % sum(map(len, chunks)) + b"".join(chunks)
+    req = b"POST http://example.com/p HTTP/1.1\r\nHost: example.com\r\n" + body(case["req_chunked"])
+    resp = b"HTTP/1.1 200 OK\r\n" + body(case["resp_chunked"])
+    marks = {}
+
+    def decide():
+        if st["hook"] is None or "at" in marks:
+            return
+        marks["at"] = len(d.trace)
+        f = st["flow"]
+        if case["action"] == "kill":
+            f.kill()
+        else:
+            if case["action"] == "edit-resume":
+                if case["hook"] in ("requestheaders", "request"):
+                    f.request.headers["x-edited"] = "1"
+                elif f.response is not None:
+                    f.response.headers["x-edited"] = "1"
+            f.resume()
+        d.complete(st["hook"])
+    d.start()
+    d.data(0, req)
+    decide()
+    if any(t[0] == "open" for t in d.trace):
+        d.data(1, resp)
+        decide()
+    f = st["flow"]
+    at = marks.get("at")
+    killed = bool(f is not None and f.error and f.error.msg == mflow.Error.KILLED_MESSAGE)
+    sends_after = [[t[1], t[2]] for t in d.trace[at:] if t[0] == "send"] if at is not None else []
+    sends_before = [[t[1], t[2]] for t in d.trace[:at] if t[0] == "send"] if at is not None else [[t[1], t[2]] for t in d.trace if t[0] == "send"]
+    hooks_after = [t[1] for t in d.trace[at:] if t[0] == "hook"] if at is not None else []
+    return {"intercepted": at is not None, "killed": killed, "sends_before": sends_before, "sends_after": sends_after,
+            "hooks_after": hooks_after, "hooks": d.hook_names(), "crashed": d.crashed,
+            "to_server": d.sent(1).hex() if len(d.conns) > 1 else "", "to_client": d.sent(0).hex(),
+            "live": bool(f.live) if f is not None else None}
+
+
 def run_impl(case):
-    return run_flow(case) if case["k"] == "flow" else run_layer(case)
+    if case["k"] == "flow":
+        return run_flow(case)
+    if case["k"] == "http":
+        return run_http(case)
+    return run_layer(case)
 
 
 def coq_case(case, obs):
@@ -221,6 +293,39 @@ def oracle(case, obs):
                 v.append({"key": "stuck-hook", "what": f"after op {i} ({op}) the hook waits although the flow is not intercepted and nothing will release it"})
                 break
         return v
+    if case["k"] == "http":
+        if obs["crashed"]:
+            return [{"key": "http-layer-crash", "what": f"HttpLayer raised {obs['crashed']}"}]
+        if not obs["intercepted"]:
+            return []
+        request_side = case["hook"] in ("requestheaders", "request")
+        dest = 1 if request_side else 0
+        after = [s for s in obs["sends_after"] if (s[0] >= 1 if request_side else s[0] == 0)]
+        if case["action"] == "kill":
+            if not obs["killed"]:
+                v.append({"key": "http-kill-not-recorded", "what": "flow killed but carries no kill error"})
+            if request_side and after and case["hook"] == "request" and case["stream_req"]:
+                v.append({"key": "http-streamed-request-kill-completes", "what": f"streamed request killed at its request hook, yet the end of the message {after[:2]} was still sent upstream (state_stream_request_body has no check_killed after the hook)"})
+            elif request_side and after:
+                v.append({"key": "http-kill-forwards-request", "what": f"flow killed at {case['hook']}, yet {after[:2]} was sent upstream afterwards"})
+            if not request_side and after:
+                v.append({"key": "http-kill-forwards-response", "what": f"flow killed at {case['hook']} (stream_resp={case['stream_resp']}), yet {after[:2]} was sent to the client afterwards"})
+            # after the response hook has fired no error hook may follow (C03: never both); the flow carries the kill error
+            if case["hook"] != "response" and "error" not in obs["hooks_after"]:
+                v.append({"key": "http-kill-no-error-hook", "what": f"flow killed at {case['hook']} but no error hook fired afterwards: {obs['hooks_after']}"})
+        else:
+            if "error" in obs["hooks"]:
+                v.append({"key": "http-resume-errored", "what": f"flow resumed at {case['hook']} ended with an error hook: {obs['hooks']}"})
+            head = bytes.fromhex(obs["to_server"])
+            if head.count(b"POST /p HTTP/1.1") != 1:
+                v.append({"key": "resume-not-exactly-once", "what": f"after resume the server received {head.count(b'POST /p HTTP/1.1')} request heads"})
+            cl = bytes.fromhex(obs["to_client"])
+            if cl.count(b"HTTP/1.1 200 OK") != 1:
+                v.append({"key": "resume-not-exactly-once", "what": f"after resume the client received {cl.count(b'HTTP/1.1 200 OK')} response heads"})
+            streamed_already = (case["hook"] == "request" and case["stream_req"]) or (case["hook"] == "response" and case["stream_resp"])
+            if case["action"] == "edit-resume" and not streamed_already and b"x-edited" not in (head if request_side else cl):
+                v.append({"key": "edit-not-forwarded", "what": f"header edited while intercepted at {case['hook']} was not forwarded"})
+        return v
     tgt = case["from_client"]
     held = [s for s in obs["sent_while_held"] if s[0] == tgt]
     if held and obs["waited"]:
@@ -238,6 +343,8 @@ def oracle(case, obs):
 
 
 def nontrivial(case, obs):
+    if case["k"] == "http":
+        return obs["intercepted"]
     if case["k"] == "flow":
         return any(r[4] == 1 for r in obs["rows"])
     return obs["waited"]
@@ -253,4 +360,6 @@ def classify(case, obs):
         if obs["rows"] and obs["rows"][-1][4] == 2:
             t.append("hook-done")
         return t
+    if case["k"] == "http":
+        return ["http", "http-" + case["hook"], "http-" + case["action"], "http-intercepted" if obs["intercepted"] else "http-hook-not-reached"]
     return [case["k"], "killed" if obs["killed"] else "resumed", "intercepted" if obs["waited"] else "not-intercepted"]
